@@ -35,12 +35,15 @@ ARG_FRAMES_MORE = ["gp_info", "h_head", "w_get", "tg"]
 ARG_SELS = ["/m.mbox", "/md", "/nofile", "/about.txt", "/d"]
 ARGS = ["|/MBOX-MESSAGE/0", "|/MBOX-MESSAGE/1", "|/MBOX-MESSAGE/2", "|/MBOX-MESSAGE/3", "|/MBOX-MESSAGE/1000000000",
         "|/MBOX-MESSAGE/-1", "|/MBOX-MESSAGE/x", "|/MAILDIR-MESSAGE/0", "|/MAILDIR-MESSAGE/1", "|/MAILDIR-MESSAGE/2",
-        "|/MAILDIR-MESSAGE/3", "?/MBOX-MESSAGE/1", "|", "|/MBOX-MESSAGE/"]
-ARGS_MORE = ["|/MBOX-MESSAGE/01", "|/MBOX-MESSAGE/99999999999999999999", "|/MAILDIR-MESSAGE/1000000000", "?", "|x"]
+        "|/MAILDIR-MESSAGE/3", "?/MBOX-MESSAGE/1", "|", "|/MBOX-MESSAGE/",
+        # digit strings beyond the machine word (2^63 + 1) and with very many digits: never integers in the model
+        "|/MBOX-MESSAGE/9223372036854775809", "|/MAILDIR-MESSAGE/1000000000000000000000000000000"]
+ARGS_MORE = ["|/MBOX-MESSAGE/01", "|/MBOX-MESSAGE/99999999999999999999", "|/MAILDIR-MESSAGE/1000000000", "?", "|x",
+             "|/MBOX-MESSAGE/18446744073709551616", "|/MAILDIR-MESSAGE/9223372036854775808"]
 # about ten representative read-only requests for histories (frame, selector, argument)
-REPS = [("g", "/", ""), ("gp_dir", "/", ""), ("h_get", "/", ""), ("g", "/d", ""), ("h_get", "/d", ""),
+REPS = [("g", "/", ""), ("gp_dir", "/", ""), ("h_get", "/", ""), ("g", "/d", ""), ("gp_dir", "/d", ""),
         ("g", "/d/.cache.pygopherd.dir", ""), ("g", "/p.pyg", ""), ("gem", "/", ""), ("g", "/about.txt", ""),
-        ("g", "/z.zip", ""), ("gp_plus", "/d", ""), ("g", "/nofile", "")]
+        ("g", "/z.zip", ""), ("h_get", "/d", ""), ("gp_info", "/d/empty.txt", ""), ("g", "/nofile", "")]
 # history runs: exhaustive up to maxhist over the first nreps representatives, or (sim) random longer ones
 
 TIERS = {
@@ -48,9 +51,9 @@ TIERS = {
                   hls=["default", "full"], hist=[dict(hl="full", nreps=10, maxhist=2)]),
     "thorough": dict(frames=FR_QUICK + FR_MORE, sels=SELS + SELS_MORE, arg_frames=ARG_FRAMES + ARG_FRAMES_MORE,
                      arg_sels=ARG_SELS, args=ARGS + ARGS_MORE, hls=["default", "full"],
-                     hist=[dict(hl="full", nreps=12, maxhist=2), dict(hl="default", nreps=12, maxhist=2),
+                     hist=[dict(hl="full", nreps=13, maxhist=2), dict(hl="default", nreps=13, maxhist=2),
                            dict(hl="full", nreps=7, maxhist=3),
-                           dict(hl="full", nreps=12, maxhist=8, sim=400, depth=150)]),
+                           dict(hl="full", nreps=13, maxhist=8, sim=400, depth=150)]),
 }
 OPS_A, OPS_B = 60, 25            # Bounded: environment operations <= OPS_A + OPS_B * (nodes of the tree)
 
@@ -62,6 +65,7 @@ CONSTANTS
   MailCount <- C_MailCount
   Defects <- C_Defects
   Bytecode <- C_Bytecode
+  Buffered <- C_Buffered
   OpsBound <- C_OpsBound
   Frames <- C_Frames
   Sels <- C_Sels
@@ -82,6 +86,7 @@ CONSTANTS
   MailCount <- C_MailCount
   Defects <- C_Defects
   Bytecode <- C_Bytecode
+  Buffered <- C_Buffered
   OpsBound <- C_OpsBound
 CONSTRAINT Record
 POSTCONDITION Post
@@ -105,6 +110,7 @@ def consts_module(L, lists, tier_cfg, defects, bytecode, hls, maxhist, reps=REPS
         "C_MailCount == " + v(L.MAILCOUNT),
         "C_Defects == " + v(set(defects)),
         "C_Bytecode == " + v(bool(bytecode)),
+        "C_Buffered == " + v(bool(lists.get("wbufsize", 0))),
         "C_OpsBound == %d" % (OPS_A + OPS_B * size),
         "C_Frames == " + v(set(t["frames"])),
         "C_Sels == " + v(set(t["sels"])),
@@ -130,6 +136,8 @@ def read_conf_lists():
         w = World(handlers=hl)
         protos, handlers = L.conf_lists(w)
         out["protocols"] = [p.split(".")[-1] for p in protos]
+        import pygopherd.server
+        out["wbufsize"] = int(pygopherd.server.GopherRequestHandler.wbufsize or 0)      # B1: buffering of the real class
         out[hl] = [h.split(".")[-1] for h in handlers]
         w.close()
     return out
@@ -446,7 +454,8 @@ def main(chk, replay=None):
     return chk.finish(cov, [
         "in-memory client connection whose write side is a memfd (real fileno for subprocess handlers); TLS is the "
         "mock SSL socket class of the harness (no handshake)",
-        "content tree: harness/c03_lib.py tree_spec (no empty documents: an empty byte stream counts as no response)",
+        "content tree: harness/c03_lib.py tree_spec; an empty byte stream counts as no response, so the 0-byte file of the "
+        "tree is only listed / asked for its Gopher+ info, never fetched as a document",
         "alpha = cutting lexers of harness/c03_lib.py; NUL is written '~' in the models; bytes outside printable ASCII "
         "in head lines are abstracted to '?'",
         "Bounded counts os.stat/lstat/listdir/open calls + write() calls + 1 (never wall-clock); bound = %d + %d * nodes"
@@ -465,7 +474,7 @@ def _rep_rq(L, i, hl):
 
 # gamma, first half, mirrored from spec/MC_C03.tla LineOf for the representative requests only (the
 # lines of the request-space cases come from the TLC dump itself)
-_REP_LINES = {"g": "%s\r\n", "gp_dir": "%s\t$\r\n", "gp_plus": "%s\t+\r\n", "h_get": "GET %s HTTP/1.0\r\n",
+_REP_LINES = {"g": "%s\r\n", "gp_dir": "%s\t$\r\n", "gp_plus": "%s\t+\r\n", "gp_info": "%s\t!\r\n", "h_get": "GET %s HTTP/1.0\r\n",
               "gem": "gemini://localhost%s\r\n"}
 _REP_TLS = {"gem"}
 _REP_TAIL = {"h_get": "blank"}
